@@ -1057,11 +1057,12 @@ def _is_exception(node: ast.AST) -> bool:
     return False
 
 
-def _breaks_out_of(loop: ast.For | ast.While) -> bool:
+def _breaks_out_of(loop: ast.For | ast.While, jump_type: type = ast.Break) -> bool:
     """Check if a loop contains a break statement that ends it.
 
     Args:
         loop (ast.For | ast.While): Loop to check
+        jump_type (type): ast.Break, or ast.Continue to look for the end of an iteration instead
 
     Returns:
         bool: True if there is a break, at any depth, that belongs to the loop.
@@ -1069,7 +1070,7 @@ def _breaks_out_of(loop: ast.For | ast.While) -> bool:
     children = list(loop.body)
     while children:
         child = children.pop()
-        if isinstance(child, ast.Break):
+        if isinstance(child, jump_type):
             return True
         if isinstance(child, (ast.FunctionDef, ast.AsyncFunctionDef, ast.ClassDef)):
             continue
@@ -1140,6 +1141,11 @@ def is_blocking(node: ast.AST, parent_type: ast.AST = None) -> bool:
 
     if isinstance(node, (ast.For, ast.While)):
         if _breaks_out_of(node):
+            return False
+
+        if isinstance(node, ast.For) and _breaks_out_of(node, ast.Continue):
+            # An iteration may end without reaching the statements that block, so the loop
+            # may run out of things to iterate over.
             return False
 
         for child in node.body:
